@@ -23,7 +23,7 @@ def gen_cases(ctx):
             alpha_s = [1.0, 2.5, 2.5, float("nan"), float("inf"), -1.0]
             for _ in range(n_rand):
                 n = r.choice([0, 1, 2, p, p + 1, 2 * p + 1, r.randint(3, 60), r.randint(100, 400) if ctx.thorough else 30])
-                h = feed(r, ind, n, specials=r.choice([0.0, 0.15, 0.4]))
+                h = feed(r, ind, n, specials=r.choice([0.0, 0.15, 0.4]), p=p)
                 # sprinkle resets inside the history
                 for _ in range(r.choice([0, 0, 1, 2])):
                     h.insert(r.randrange(len(h) + 1), ("r", 0))
@@ -34,7 +34,7 @@ def gen_cases(ctx):
                 for w in r.sample(words, min(len(words), 10 if not ctx.thorough else 120)):
                     hists.append([("r", 0) if a == len(alpha_s) else ("n", 0, alpha_s[a]) for a in w])
             for hi, h in enumerate(hists):
-                cont = feed(r, ind, p + 2 + r.randint(0, 4), bars=None)
+                cont = feed(r, ind, p + 2 + r.randint(0, 4), bars=None, p=p)
                 if hi % 2 == 1:
                     # infinities and extreme (non-NaN) values are legitimate continuation inputs as well
                     ext = [float("inf"), float("-inf"), 1.7976931348623157e308, -1.7976931348623157e308, 5e-324, 0.0, -0.0]
